@@ -134,6 +134,12 @@ def check_meta(case):
             why = 'not equal under =='
         if why:
             out.append(fail('track-differs', f'{t} {str(attrs)[:100]} delta={delta}: {why}', **facts))
+        # a file object may hand out fewer bytes than asked for (raw files, pipes; round 13: the payload fetched with one
+        # read(size)); the header reads of the pinned reader need 8 bytes at once, so the cap is never below that
+        rs = mido.MidiFile(file=_ShortReads(fb, 8 + len(fb) % 23)).tracks[0][0]
+        why = M.same(rs, dd)
+        if why:
+            out.append(fail('track-differs', f'{t} {str(attrs)[:100]} read through short reads: {why}', short='True', **facts))
         # clip=True only concerns data bytes of channel / sysex messages: a meta payload is not touched
         rc = mido.MidiFile(file=io.BytesIO(fb), clip=True).tracks[0][0]
         why = M.same(rc, dd)
@@ -143,6 +149,22 @@ def check_meta(case):
         out.append(fail('track-raises', f'{t} {str(attrs)[:100]}: {exc!r}', exc=exc_sig(exc), **facts))
     del tm
     return out
+
+
+class _ShortReads:
+    """Binary file object whose read(n) returns at most `cap` bytes per call."""
+
+    def __init__(self, data, cap):
+        self._f = io.BytesIO(bytes(data))
+        self._cap = cap
+
+    def read(self, size=-1):
+        if size is None or size < 0 or size > self._cap:
+            size = self._cap
+        return self._f.read(size)
+
+    def tell(self):
+        return self._f.tell()
 
 
 def check_unknown(case):
